@@ -149,7 +149,7 @@ class IsoOutSpec(Spec):
             else:
                 entries = self._entries(L)
         consumed = tuple(host.consumed)
-        rest = host.drain_probe(cur, cap + 8)
+        rest = host.drain_probe(cur, 2 * cap + 10)     # generous: idle cycles between beats/packets and a few hidden entries are fine
         observed = consumed + rest
         if entries is None:
             if observed != queue:
